@@ -125,6 +125,27 @@ def worker(case, led):
                 led.check(d <= bnd, f"post:Mps.evolve[{method}]:solver_independent", f"Mps._evolve_{method}",
                           f"krylov vs RK45 differ by {d:.3e} > {bnd:.3e} at |H|dt={x}", (name, n, method, "solvers", x), {"method": method},
                           {"model": name, "nsites": n, "method": method, "x=|H|dt": x, "seed": seed})
+        # backward propagation (negative real time, as the spectra drivers use it): the same contract with t < 0
+        for solver in ("krylov", "RK45"):
+            if method.startswith("prop") and solver == "RK45":
+                continue
+            x = -0.3
+            dt = x / hn
+            ref = scipy.linalg.expm(-1j * dt * Hd) @ v0
+            # (the general RK scheme checks that its configured initial step `guess_dt` points in the direction of the requested step: a stated precondition)
+            extra = {"rk_solver": "C_RK4", "guess_dt": dt} if method == "prop_and_compress_tdrk" else {}
+            key = (name, n, method, solver, x, "backward")
+            rep = {"model": name, "nsites": n, "method": method, "ivp_solver": solver, "x=|H|dt": x, "dt": dt, "seed": seed, "how": "props.C09.prepare(model, nsites, rng) then set_evolve/evolve with dt < 0"}
+            fields = {"method": method, "ivp_solver": solver, "backward": True}
+            try:
+                r, m = evolve(a, H, dt, method, ivp_solver=solver, **extra)
+            except Exception as e:
+                led.check(False, f"post:Mps.evolve[{method}]:total", f"Mps._evolve_{method}", f"raised {type(e).__name__}: {e} for a negative time step", key, fields, rep)
+                continue
+            err = np.linalg.norm(S.dense(r) - ref)
+            bnd = bound_for(method, abs(x), m, n, nrm)
+            led.check(err <= bnd, f"post:Mps.evolve[{method}]:error_within_scheme_bound", f"Mps._evolve_{method}",
+                      f"|psi - exp(-iHt)psi0| = {err:.3e} > bound {bnd:.3e} at |H|dt={x} (backward in time)", key, fields, rep)
         # documented switches of the variational schemes (secondary code paths): the overlap-free form of VMF, the CMF variants (trapezoidal mean fields, no midpoint)
         tight = {"ivp_rtol": 1e-9, "ivp_atol": 1e-11}      # the bound of the exact-at-full-rank schemes is the local solver tolerance: make it tight
         variants = {"tdvp_vmf": [dict(tight, force_ovlp=False), dict(tight, force_ovlp=True)], "tdvp_mu_vmf": [dict(tight, force_ovlp=False), dict(tight, force_ovlp=True)],
